@@ -82,12 +82,18 @@ def dump_mir(repo, log):
         if p.returncode != 0 or not p.stdout.strip():
             errs = [l for l in p.stderr.splitlines() if l.startswith("error")][:5]
             raise Unsupported("MIR dump failed (rc=%d): %s" % (p.returncode, "; ".join(errs) or p.stderr[-400:]))
-        src = {}
-        with open(os.path.join(dst, "src", "subdevice_group", "mod.rs")) as f:
-            src["subdevice_group/mod.rs"] = f.read()
-        return p.stdout, src
+        return p.stdout, read_sources(dst)
     finally:
         shutil.rmtree(tmp, ignore_errors=True)
+
+
+def read_sources(root):
+    """one string: subdevice_group/mod.rs (HasDc, SubDeviceGroup, constants) + subdevice/dc.rs (enum DcSync)"""
+    out = ""
+    for rel in (("src", "subdevice_group", "mod.rs"), ("src", "subdevice", "dc.rs")):
+        with open(os.path.join(root, *rel)) as f:
+            out += f.read() + "\n"
+    return out
 
 
 # --------------------------------------------------------------------------------------------
@@ -106,8 +112,8 @@ class Function:
         self.blocks, self.debug, self.locals, self.text = {}, [], {}, []
 
 
-def find_function(mir_lines, name):
-    pat = "::%s::{closure#0}(" % name
+def find_function(mir_lines, name, suffix="::{closure#0}("):
+    pat = "::%s%s" % (name, suffix)
     hits = [i for i, l in enumerate(mir_lines) if l.startswith("fn ") and pat in l]
     if len(hits) != 1:
         raise Unsupported("expected exactly one coroutine body for %s, found %d" % (name, len(hits)))
@@ -641,11 +647,16 @@ class Eval:
         dty = self.dest_type(st["dest"])
         res = None
         if f == "core::time::Duration::as_nanos" and len(args) == 1 and args[0][0] == "ref":
-            d = self.mem.get(args[0][1])
+            root, projs = args[0][1]
+            if root[0] == "local":
+                if projs:
+                    raise Unsupported("as_nanos of a field of a local")
+                d = self.read(("local", root[1]))
+                if d[0] != "s" or d[2] is not None:
+                    raise Unsupported("as_nanos of a computed Duration")
+            else:
+                d = self.mem.get(args[0][1])
             if d is None:
-                root, projs = args[0][1]
-                if root[0] == "local":
-                    raise Unsupported("as_nanos of a local Duration")
                 d = self.fresh(pretty_path(args[0][1]), None, "load (Duration)")
                 self.mem[args[0][1]], self.memtype[args[0][1]] = d, "core::time::Duration"
             key = "as_nanos(%s)" % self.name_of(d)
@@ -677,7 +688,8 @@ class Eval:
             self.havoc(args)
             short = re.sub(r"<.*?>", "", f).split("::")[-1] or f
             res = self.fresh("call:%s@L%d" % (short, line), type_width(dty), "result of opaque call " + f)
-        self.calls.append({"func": f, "args": args, "result": res, "line": line, "known": known})
+        self.calls.append({"func": f, "args": args, "result": res, "line": line, "known": known,
+                           "dest": self.resolve(st["dest"])})
         self.write(st["dest"], res)
 
     # ---- chain ----
@@ -1224,7 +1236,8 @@ def parse_consts(src):
 
 
 def debug_path(fn, consts, name, ty_pred):
-    hits = [pl for (n, pl) in fn.debug if n == name and pl.startswith("(") and ty_pred(pl)]
+    hits = [pl for (n, pl) in fn.debug if n == name and (
+        (pl.startswith("(") and ty_pred(pl)) or (re.match(r"^_\d+$", pl) and ty_pred("(%s: %s)" % (pl, fn.locals.get(pl, "?")))))]
     if len(hits) != 1:
         raise Unsupported("debug variable %s: expected one matching place, found %d" % (name, len(hits)))
     pl, _ = parse_place(hits[0], 0)
@@ -1431,11 +1444,252 @@ def ref_configure(sys_, np_, nd_, ns_):
         return ("panic", "mul")
     return ("ok", {"start_time": st, "cycle_time": np_, "hasdc_period": np_, "hasdc_shift": ns_ % M64})
 
+def parse_enum_variants(src, name):
+    m = re.search(r"\benum %s\b[^{]*\{" % name, src)
+    if not m:
+        raise Unsupported("enum %s not found" % name)
+    depth, j, out, cur = 1, m.end(), [], ""
+    while depth > 0:
+        c = src[j]
+        if c == "{":
+            depth += 1
+        elif c == "}":
+            depth -= 1
+        if depth == 1 and c == "," or depth == 0:
+            out.append(cur)
+            cur = ""
+        elif depth == 1 and c != "}":
+            cur += c
+        j += 1
+    names = []
+    for v in out:
+        v = re.sub(r"//[^\n]*", "", v)
+        v = re.sub(r"#\[[^\]]*\]", "", v)
+        mm = re.match(r"\s*(\w+)", v)
+        if mm:
+            names.append(mm.group(1))
+    return names
+
+
+def enum_paths(fn, start=0, limit=32):
+    paths = []
+
+    def rec(b, acc, seen):
+        if len(paths) > limit:
+            raise Unsupported("too many paths")
+        blk = fn.blocks[b]
+        if blk.lines[-1][1] == "return;":
+            paths.append(acc + [(b, None)])
+            return
+        succ = [(l, t) for (l, t) in blk.edges if l != "unwind"]
+        if not succ or b in seen:
+            raise Unsupported("cyclic or dead-end CFG in closure")
+        for l, t in succ:
+            rec(t, acc + [(b, l)], seen | {b})
+    rec(start, [], frozenset())
+    return paths
+
+
+def analyse_filter_closure(mir_lines, outer, consts, variants, report):
+    """all paths of configure_dc_sync::{closure#0}::{closure#0} (the `.filter(..)` predicate), symbolically"""
+    fn = find_function(mir_lines, "configure_dc_sync", "::{closure#0}::{closure#0}(")
+    m = re.search(r"\{closure@([^}]*)\}", fn.header)
+    if not m:
+        raise Unsupported("filter closure header not recognised")
+    ctag = "{closure@%s}" % m.group(1)
+    # structural: the loop iterates a Filter<.., that closure>, and every DC register write goes to the loop variable
+    nexts = [t for b in outer.blocks.values() for _, t in b.lines if " as Iterator>::next(" in t and "Filter<" in t]
+    if len(nexts) != 1 or ctag not in nexts[0]:
+        raise Unsupported("the configure loop does not iterate a Filter over the expected closure")
+    nres = nexts[0].split(" = ")[0]
+    subdev = [pl for (n, pl) in outer.debug if n == "subdevice"]
+    if len(subdev) != 1:
+        raise Unsupported("loop variable `subdevice` not found")
+    stores = [t for b in outer.blocks.values() for _, t in b.lines if t.startswith(subdev[0] + " = ")]
+    if len(stores) != 1 or stores[0] != "%s = move ((%s as Some).0: %s;" % (subdev[0], nres, subdev[0].rsplit(": ", 1)[1]):
+        raise Unsupported("loop variable is not exactly the Some(..) payload of Filter::next: %s" % stores)
+    writes = [t for b in outer.blocks.values() for _, t in b.lines if "::write::<RegisterAddress>(" in t]
+    for t in writes:
+        blk = [b for b in outer.blocks.values() if any(x == t for _, x in b.lines)][0]
+        arg0 = re.search(r"write::<RegisterAddress>\(move (_\d+),", t).group(1)
+        if not any(x == "%s = &%s;" % (arg0, subdev[0]) for _, x in blk.lines):
+            raise Unsupported("a register write does not target the loop variable: " + t[:100])
+    goals, inputs, lines, npaths = [], {}, [], 0
+    for path in enum_paths(fn):
+        e = Eval(fn, consts)
+        e.run_chain(path)
+        npaths += 1
+        res = e.env.get("_0")
+        if res is None or twidth(res) != "bool":
+            raise Unsupported("closure result is not a bool expression")
+        anyc = [c for c in e.calls if c["func"].endswith("DcSupport::any")]
+        dcs = [c for c in e.calls if c["func"].endswith("::dc_sync")]
+        sup = [c for c in e.calls if c["func"].endswith("::dc_support")]
+        if len(anyc) != 1 or len(sup) != 1 or len(dcs) > 1:
+            raise Unsupported("filter closure does not call dc_support().any() exactly once")
+        if anyc[0]["args"][0][0] != "ref" or anyc[0]["args"][0][1] != sup[0]["dest"]:
+            raise Unsupported("any() is not applied to the dc_support() result")
+        a = anyc[0]["result"]
+        d = e.discr(dcs[0]["result"]) if dcs else ("s", "dc_sync_not_called@discr", 64)
+        inputs.update(e.inputs)
+        inputs.setdefault(d[1], {"width": 64, "desc": "discriminant"})
+        spec = AND(("b", a), ("not", ("b", mk_cmp("eq", d, ("c", 64, variants.index("Disabled"))))))
+        if not dcs:
+            spec = AND(("b", a), ("b", ("c", "bool", 0)))      # dc_sync() not consulted on this path: only sound if any()==false
+        pc = [("b", x["cond"]) for x in e.events if x["kind"] == "path"]
+        if any(x["kind"] == "assert" for x in e.events):
+            raise Unsupported("panic edge in filter closure")
+        goals.append(("imp", ("and", pc), ("iff", ("b", res), spec)))
+        for l in e.lines:
+            if l not in lines:
+                lines.append(l)
+    report["slices"].append({"function": fn.header.split("(")[0][3:], "slice": "filter predicate (all %d paths)" % npaths,
+                             "blocks": sorted(fn.blocks), "mir": [{"mir_line": a_, "text": b_} for a_, b_ in sorted(lines)], "asserts": []})
+    note = ("all %d paths of the filter closure; structural: the loop iterates Filter<.., %s>, its variable is the Some payload of "
+            "next(), all %d RegisterAddress writes in the function target that variable" % (npaths, ctag, len(writes)))
+    return ("and", goals), inputs, note
+
+
+def reach(fn, start, stop):
+    seen, todo = set(), [start]
+    while todo:
+        b = todo.pop()
+        if b in seen or b == stop:
+            continue
+        seen.add(b)
+        for l, t in fn.blocks[b].edges:
+            if l != "unwind" and not fn.blocks[t].cleanup:
+                todo.append(t)
+    return seen
+
+
+def analyse_flags(fn, consts, variants, sset, sink, report):
+    fl = [pl for (n, pl) in fn.debug if n == "flags"]
+    if len(fl) != 1 or not re.match(r"^_\d+$", fl[0]):
+        raise Unsupported("debug variable `flags` not a plain local")
+    fl = fl[0]
+    fblocks = sorted(b.n for b in fn.blocks.values() if any(t.startswith(fl + " = ") for _, t in b.lines))
+    # the switch on dc_sync()'s discriminant that dominates them
+    sw = []
+    for b in fn.blocks.values():
+        t = b.lines[-1][1] if b.lines else ""
+        m = re.match(r"^switchInt\(move (_\d+)\)", t)
+        if m and not b.cleanup:
+            d = [x for _, x in b.lines if re.match(r"^%s = discriminant\((_\d+)\);$" % m.group(1), x)]
+            if d:
+                src_local = re.match(r"^.* = discriminant\((_\d+)\);$", d[0]).group(1)
+                defs = [x for bb in fn.blocks.values() for _, x in bb.lines if x.startswith(src_local + " = ")]
+                if len(defs) == 1 and "::dc_sync(" in defs[0]:
+                    sw.append(b)
+    if len(sw) != 1:
+        raise Unsupported("expected one switch on dc_sync() in configure_dc_sync, found %d" % len(sw))
+    sw = sw[0]
+    sides = {}
+    for lab, t in sw.edges:
+        if lab == "unwind":
+            continue
+        names = variants[int(lab):int(lab) + 1] if lab.isdigit() else [v for i, v in enumerate(variants)
+                                                                       if str(i) not in [l for l, _ in sw.edges]]
+        sides[lab] = {"target": t, "variants": names, "reach": reach(fn, t, sw.n)}
+    vals, lines = {}, []
+    for F in fblocks:
+        e = Eval(fn, consts, sset)
+        e.run_chain([(F, None)])
+        lines += e.lines
+        v = e.env.get(fl)
+        if v is None or v[0] != "c" or v[1] != 8:
+            raise Unsupported("flags value in bb%d is not a u8 constant expression" % F)
+        labs = [l for l, sd in sides.items() if F in sd["reach"]]
+        if len(labs) != 1:
+            raise Unsupported("flags block bb%d is not on exactly one side of the dc_sync() switch" % F)
+        if labs[0] in vals:
+            raise Unsupported("two flag assignments on one side of the dc_sync() switch")
+        vals[labs[0]] = v
+    goal, desc = [], []
+    for lab, sd in sides.items():
+        if lab not in vals:
+            raise Unsupported("no flags assignment for DcSync variants %s" % sd["variants"])
+        want = 0x07 if sd["variants"] == ["Sync01"] else 0x03
+        if "Sync01" in sd["variants"] and sd["variants"] != ["Sync01"]:
+            raise Unsupported("Sync01 shares a branch with another variant")
+        goal.append(("b", mk_cmp("eq", vals[lab], ("c", 8, want))))
+        desc.append("%s -> %#04x (expected %#04x)" % ("|".join(sd["variants"]), vals[lab][2], want))
+    # SYNC1 cycle time written only on the Sync01 side
+    s1 = one_block(fn, "RegisterAddress::DcSync1CycleTime", "the DcSync1CycleTime register constant")
+    for lab, sd in sides.items():
+        if (s1 in sd["reach"]) != (sd["variants"] == ["Sync01"]):
+            goal.append(("b", ("c", "bool", 0)))
+            desc.append("DcSync1CycleTime write reachable on side %s" % sd["variants"])
+    # the two DcSyncActive writes: first 0, then `flags`
+    act = blocks_with(fn, "RegisterAddress::DcSyncActive")
+    sent = []
+    for a in act:
+        e = Eval(fn, consts, sset)
+        e.run_chain(join_chain([(a, None)], forward_to(fn, a, lambda b: any("WrappedWrite::send::<" in s for _, s in b.lines))))
+        lines += e.lines
+        sent.append(sink(e, "DcSyncActive"))
+    zero = [v for v in sent if v == ("c", 8, 0)]
+    fsym = [v for v in sent if v[0] == "s" and v[1] == fl]
+    if len(sent) != 2 or len(zero) != 1 or len(fsym) != 1:
+        goal.append(("b", ("c", "bool", 0)))
+        desc.append("DcSyncActive writes are not exactly {0u8, flags}: %s" % (sent,))
+    first = blocks_with(fn, "const 0_u8) -> [return")
+    if not (first and all(f in reach(fn, first[0], -1) for f in fblocks) and first[0] not in reach(fn, sw.n, first[0])):
+        pass    # ordering is informational only
+    report["slices"].append({"function": fn.header.split("(")[0][3:], "slice": "activation flags", "blocks": fblocks + act,
+                             "mir": [{"mir_line": a_, "text": b_} for a_, b_ in lines], "asserts": []})
+    return ("and", goal), "; ".join(desc) + "; switch on dc_sync() at bb%d" % sw.n
+
+
+def analyse_no_reference(fn, consts, sset, report):
+    nr = one_block(fn, "DistributedClockError::NoReference", "the NoReference error value")
+    callb = one_block(fn, "::dc_ref_address(", "the dc_ref_address() call")
+    chain = back_chain(fn, nr, allow_switch=True, need={callb})
+    if callb not in [c[0] for c in chain]:
+        raise Unsupported("NoReference block is not on a single-predecessor chain from dc_ref_address()")
+    chain = chain[[c[0] for c in chain].index(callb):]
+    e = Eval(fn, consts, sset, tag="~n")
+    e.run_chain(chain)
+    ref = [c for c in e.calls if c["func"].endswith("::dc_ref_address")]
+    conv = [c for c in e.calls if re.search(r"DistributedClockError as Into<error::Error>>::into$|From<(error::)?DistributedClockError>>::from$", c["func"])]
+    if len(ref) != 1 or len(conv) != 1 or conv[0]["args"][0] != ("agg", "DistributedClockError::NoReference", ()):
+        raise Unsupported("NoReference is not converted into error::Error in the expected way")
+    if any(c for c in e.calls if c not in ref and c not in conv):
+        raise Unsupported("unexpected call before the NoReference return: %s" % [c["func"] for c in e.calls])
+    errl = conv[0]["dest"]
+    if errl[0][0] != "local" or errl[1]:
+        raise Unsupported("error value not in a local")
+    nxt = [t for (l, t) in fn.blocks[nr].edges if l == "return"]
+    m = None
+    for _, t in fn.blocks[nxt[0]].lines if nxt else []:
+        m = m or re.match(r"^(_\d+) = Result::<.*>::Err\(move %s\);$" % errl[0][1], t)
+    if not m:
+        raise Unsupported("NoReference error is not wrapped into Result::Err")
+    R = m.group(1)
+    rd = [b.n for b in fn.blocks.values() if any(re.match(r"^_0 = Poll::<.*>::Ready\(move %s\);$" % R, t) for _, t in b.lines)]
+    if len(rd) != 1:
+        raise Unsupported("no unique `_0 = Poll::Ready(move %s)`" % R)
+    rs = reach(fn, nxt[0], -1)
+    if rd[0] not in rs:
+        raise Unsupported("Poll::Ready not reachable from the NoReference branch")
+    for b in rs:
+        for _, t in fn.blocks[b].lines:
+            if (t.startswith(R + " = ") and b != nxt[0]) or "WrappedWrite::send" in t or "register_read" in t or "::write::<" in t:
+                raise Unsupported("NoReference branch does more than returning the error: bb%d %s" % (b, t[:80]))
+    d = e.discr(ref[0]["result"])
+    pc = [("b", x["cond"]) for x in e.events if x["kind"] == "path"]
+    report["slices"].append({"function": fn.header.split("(")[0][3:], "slice": "NoReference rejection", "blocks": e.bbs,
+                             "mir": lines_json(e), "asserts": []})
+    note = ("structural: NoReference -> Into<Error> -> Result::Err -> %s -> Poll::Ready(%s) with no register access on the way "
+            "(blocks reachable: %d); Option::None has discriminant 0" % (R, R, len(rs)))
+    return ("iff", ("and", pc), ("b", mk_cmp("eq", d, ("c", 64, 0)))), e.inputs, note
+
+
 def analyse_configure(mir_lines, src, consts, seed, report):
     fn = find_function(mir_lines, "configure_dc_sync")
     stable = stable_fields(fn, consts)
     sset = set(stable)
-    DUR = lambda pl: pl.endswith(": core::time::Duration)") and "variant#" in pl
+    DUR = lambda pl: pl.endswith(": core::time::Duration)")
     U64 = lambda pl: pl.endswith(": u64)")
     p_dur = {n: debug_path(fn, consts, n, DUR) for n in ("sync0_period", "start_delay", "sync0_shift")}
     p_u64 = {n: debug_path(fn, consts, n, U64) for n in ("sync0_period", "first_pulse_delay", "system_time", "start_time")}
@@ -1550,6 +1804,24 @@ def analyse_configure(mir_lines, src, consts, seed, report):
         err_ok = err_ok and ok
     if not err_ok:
         raise Unsupported("a failing range check does not lead to `return Err(..)` via FromResidual: %s" % struct)
+    # ---- Q13: device selection = the filter closure; Q14: activation flags per mode
+    variants = parse_enum_variants(src, "DcSync")
+    if variants != ["Disabled", "Sync0", "Sync01"]:
+        raise Unsupported("enum DcSync changed: %s" % variants)
+    sel_goal, sel_inputs, sel_note = analyse_filter_closure(mir_lines, fn, consts, variants, report)
+    inputs.update({k: v for k, v in sel_inputs.items() if k not in inputs})
+    flags_goal, flags_note = analyse_flags(fn, consts, variants, sset, sink, report)
+    nr_goal, nr_inputs, nr_note = analyse_no_reference(fn, consts, sset, report)
+    inputs.update({k: v for k, v in nr_inputs.items() if k not in inputs})
+    # destructuring: the Duration variables are exactly the DcConfiguration fields of the same name
+    dcf = parse_struct_fields(src, "DcConfiguration")
+    dcl = [pl for (n, pl) in fn.debug if n == "dc_conf" and re.match(r"^_\d+$", pl)]
+    for n in ("start_delay", "sync0_period", "sync0_shift"):
+        pls = [pl for (nn, pl) in fn.debug if nn == n and (pl.endswith(": core::time::Duration)") or fn.locals.get(pl) == "core::time::Duration")]
+        want = ["%s = copy (%s.%d: core::time::Duration);" % (pls[0], d_, dcf.index(n)) for d_ in dcl] if pls and n in dcf else []
+        got = [t for b in fn.blocks.values() for _, t in b.lines if pls and t.startswith(pls[0] + " = ")]
+        if len(got) != 1 or got[0] not in want:
+            raise Unsupported("`%s` is not bound to DcConfiguration.%s by the destructuring: %s" % (n, n, got))
     # ---- queries
     two32, two64 = ("nc", 1 << 32), ("nc", M64)
     X = ("nadd", N(SYS), N(ND))
@@ -1583,6 +1855,12 @@ def analyse_configure(mir_lines, src, consts, seed, report):
       AND(("b", mk_cmp("eq", sent_start, start)), ("neq", N(sent_cycle), N(NP)), ("neq", N(hf["sync0_period"]), N(NP)),
           ("neq", N(hf["sync0_shift"]), ("nmod", N(NS), two64))),
       "structural: send() is fed by write(RegisterAddress::X) in the same straight-line chain")
+    Q("Q13", "only SubDevices with dc_support().any() && dc_sync() != Disabled are configured", [], sel_goal, sel_note,
+      p="any result of dc_support().any(), any DcSync discriminant")
+    Q("Q14", "activation flags: 0x00 first, then 0x07 for Sync01 / 0x03 otherwise; SYNC1 cycle time only for Sync01", [],
+      flags_goal, flags_note, p="none (constants)")
+    Q("Q15", "no DC reference clock (dc_ref_address() == None) <=> early return Err(NoReference), nothing written", [],
+      nr_goal, nr_note, p="any Option<u16> discriminant")
     gw2, _ = obligations(events, [pre[-2]], None)
     gw3, _ = obligations(events, [pre[-1]], None)
     ws = [{"id": "W2", "name": "configure_dc_sync: `system_time + first_pulse_delay` overflow is reachable when sys_time + delay >= 2^64",
@@ -1606,7 +1884,11 @@ def analyse_configure(mir_lines, src, consts, seed, report):
             bad.append({"sys": s_, "period_nanos": p_, "delay_nanos": d_, "shift_nanos": h_, "slice": str(got), "reference": str(exp)})
         elif got[0] == "ok":
             for q in qs:
-                if not (ev_form(q["goal"], env) or not all(ev_form(a, env) for a in q["assume"])):
+                try:
+                    holds = ev_form(q["goal"], env) or not all(ev_form(a, env) for a in q["assume"])
+                except KeyError:
+                    continue          # query over other inputs (Q13/Q14)
+                if not holds:
                     bad.append({"sys": s_, "period_nanos": p_, "delay_nanos": d_, "query_false_on_vector": q["id"]})
     hdr = fn.header.split("(")[0][3:]
     for nm, e_ in (("u32 range checks", ea), ("start time arithmetic + DcSyncStartTime write", eb),
@@ -1743,10 +2025,9 @@ def main():
             raise Unsupported("need both z3 and cvc5 on PATH")
         if args.mir:
             mir = open(args.mir).read()
-            src = open(os.path.join(args.repo, "src", "subdevice_group", "mod.rs")).read()
+            src = read_sources(args.repo)
         else:
-            mir, srcs = dump_mir(args.repo, report)
-            src = srcs["subdevice_group/mod.rs"]
+            mir, src = dump_mir(args.repo, report)
         mir_lines = mir.split("\n")
         report["mir_lines_total"] = len(mir_lines)
         consts = parse_consts(src)
@@ -1845,6 +2126,8 @@ def main():
         print("%s %s: %s %s  [%s]" % (q["id"], q["name"], v, head, detail))
         if v == "VIOLATED":
             print("     COUNTEREXAMPLE under {%s}: %s" % (q["pre"], json.dumps(model["values"] if model else {}, sort_keys=True)))
+            if q.get("note"):
+                print("     note: " + q["note"][:500])
             exit_code = max(exit_code, 1) if exit_code != 2 else 2
             exit_code = 1 if exit_code == 0 else exit_code
         elif v == "INCONCLUSIVE" and exit_code == 0:
